@@ -499,6 +499,9 @@ def transition_total_signs(ctx, rid):
                 if inner[0] == "bin" and inner[1] in ("Max", "Min"):
                     clamped = inner[1]
                     inner = inner[2] if inner[2][0] != "const" else inner[3]
+                elif inner[0] == "phi" and len(inner[1]) == 2 and any(a[0] == "const" and str(a[1]).startswith("0") for a in inner[1]):
+                    clamped = "Max"         # the positive part written out: if c > 0 { c } else { 0 }
+                    inner = [a for a in inner[1] if a[0] != "const"][0]
                 if clamped == "Min":
                     bad.append((ins, "a cycle's counter is clamped with min(.., 0) instead of max(.., 0): %s" % shape.show(e)))
                     continue
